@@ -1,12 +1,12 @@
 import Amgcl.Model.ScheduleLocal
 import Amgcl.Proofs.SchedSort
-import Amgcl.Proofs.SchedKernels
+import Amgcl.Proofs.SchedMicro
 /-!
 Step 4 of the constructors (`Model/ScheduleLocal.lean`): the literal fill loops equal a closed form (`locSpec`):
 `ord` = the rows of the thread's tasks in task order, `col`/`val` = the concatenation of those rows of `A`,
 `ptr` = the running entry count, tasks = consecutive local ranges.  From the closed form: every local row is the row
 `ord[r]` of `A` (`locSpec_row`), a task's local range gathers exactly the rows of the task (`locSpec_task_rows`).
-(Imports `SchedKernels` for `foldl_congr_mem`; no algebra is used.)
+(Imports `SchedMicro`/`SchedKernels` for `Interleave.flatten`, `foldl_congr_mem`; no algebra is used.)
 -/
 namespace Amgcl.Sched
 
@@ -406,21 +406,7 @@ theorem LevelwiseExecG.mem {α : Type} {tk : List (List (List α))} {levs : List
       | some task => exact List.mem_of_getElem? hq
     · exact ih hs
 
-/-- thread order inside every level is admitted: the concatenation of lists is one of their interleavings -/
-theorem Interleave.cons_nil {α : Type} {ls : List (List α)} {σ : List α} (h : Interleave ls σ) :
-    Interleave ([] :: ls) σ := by
-  induction h with
-  | done hall => exact Interleave.done (by intro l hl; rcases List.mem_cons.mp hl with h | h; exact h; exact hall l h)
-  | @step pre post l a σ _ ih => exact Interleave.step (pre := [] :: pre) ih
-
-theorem Interleave.flatten {α : Type} (ls : List (List α)) : Interleave ls ls.flatten := by
-  induction ls with
-  | nil => exact Interleave.done (by intro l hl; cases hl)
-  | cons l rest ih =>
-    induction l with
-    | nil => exact ih.cons_nil
-    | cons a l ihl => exact Interleave.step (pre := []) ihl
-
+/-- thread order inside every level is admitted (`Interleave.flatten`, `Proofs/SchedMicro.lean`) -/
 theorem LevelwiseExecG.threadOrder {α : Type} (tk : List (List (List α))) (levs : List Nat) :
     LevelwiseExecG tk levs (levs.flatMap fun lev => (levelTasksG tk lev).flatten) := by
   induction levs with
